@@ -935,7 +935,11 @@ ODD_STRINGS = ['', ' ', '007', 'yes', 'null', '~', '1e3', 'a: b', '- x',
                '#c', "it's", 'say "hi"', 'tab\there', 'trail ', ' lead',
                'two\nlines', 'two\nlines\n', '\n', 'é☃', '{}', '[]',
                '0x1f', '1_000', '12:30:00', '2001-01-01', '%', '@', '`',
-               'a' * 90, '!!str x', '&a', '*a', '|', '>', '? ']
+               'a' * 90, '!!str x', '&a', '*a', '|', '>', '? ',
+               # outside the Basic Multilingual Plane, line separators that
+               # only YAML knows, a byte-order mark
+               '\U0001f680', 'go \U0001f680 now', '\U00010000\U0010ffff',
+               'ls\u2028ps\u2029', 'nel\x85', '\ufeffbom', 'del\x7f']
 
 
 def gen_manifest(rng, cfg, name):
